@@ -27,8 +27,15 @@ def solve_fixed_grid(
         state0 = solver.init(t=t0, u=u, damp=damp)
         s_new, result = flow.scan(body_fn, init=state0, xs=np.diff(grid))
 
+        # The last step ends exactly at the last grid point. Resume from there
+        # like the adaptive solvers do at a checkpoint, so that smoothers
+        # receive a terminal state whose backward model points to the
+        # last grid point (not to the second-to-last one).
+        _, interp_res = solver.interpolate_fwd_at_t1(
+            t=s_new.t, interp_from=s_new, interp_to=s_new
+        )
         return solver.userfriendly_output(
-            solution0=state0, solution=result, solution1=s_new
+            solution0=state0, solution=result, solution1=interp_res.step_from
         )
 
     return solve
